@@ -140,9 +140,11 @@ CLAIMED["C10"] = dict(
          "_untransform_numerical_param and _SearchSpaceTransform.untransform map every point of the transformed box into the domain - ints "
          "for unbounded z3-int bounds and ANY real point, plain/log floats through the clamp (nextafter/exp/log uninterpreted monotone), stepped "
          "floats under the standard floating-point error model (SymF64, sound over-approximation; one linear query set per concrete step) "
-         "followed by the real _contains.",
+         "followed by the real _contains; TPE's own output stages (_MixtureOfProductDistribution.sample + _ParzenEstimator._untransform) for ints, "
+         "stepped floats and continuous floats, the numeric kernel's output an arbitrary point of its truncation interval (discrete) or an "
+         "arbitrary real (continuous), plus a concrete companion run of the real kernel on histories with a distant range.",
     note="stepped floats: |low|<=1000, <=1000 grid points, steps from an explicit list; exp(log(x)) within 4 ulps assumed; the numerics upstream "
-         "of the output stage (TPE/GP/CMA) are only assumed to return a finite number in the box",
+         "of the output stages (truncated-normal/GP/CMA kernels) are outside (C18)",
     design="§3 C10")
 
 CLAIMED["C15"] = dict(
